@@ -40,7 +40,11 @@ def evaluate(seed, props, tier):
             return seed, {'error': 'patch does not apply: ' + r.stderr[:200]}
         for pid in props:
             env = dict(os.environ, HPOTK_REPO=wt, PYTHONHASHSEED='0')
-            p = subprocess.run([os.path.join(VERIF, 'check'), pid, '--tier', tier, '--no-proof'], capture_output=True, text=True, env=env, cwd=VERIF)
+            try:
+                p = subprocess.run([os.path.join(VERIF, 'check'), pid, '--tier', tier, '--no-proof'], capture_output=True, text=True, env=env, cwd=VERIF, timeout=2400)
+            except subprocess.TimeoutExpired:
+                out[pid] = {'exit': 'timeout', 'violations': 0, 'what': [], 'no_failing_input': False}
+                continue
             viol = re.findall(r'^VIOLATION property=\S+ replay=(\S+)(.*)$', p.stdout, flags=re.M)
             whats = []
             for path, _ in viol[:3]:
